@@ -43,6 +43,7 @@ def gen_cases(rng, tier, ctx):
         cs.append({'line': gen.encode_line(d, wl, m, False, False, None), 'cat': 'random',
                    'cfg': dict(data=d, wl=wl, modes=m, macros=False, fnc1=False, eci=None)})
     cs += gen.boundary_cases(rng, tier, per_cap=2 if tier == 'quick' else 6)
+    cs += gen.adjacent_capacity_cases(rng, tier)
     cs += [c for c in gen.constant_cases(rng, tier) if len(c['cfg']['data']) <= 260]
     # long inputs, judged by the two-mode (ASCII / Base256) bound: the constant and upper-limit families, and runs of high
     # bytes around the 249/250 length-field border between short ASCII runs, sized to land on a symbol capacity
